@@ -181,6 +181,66 @@ def real_readiness(out):
                     if problem is not None:
                         out.failures.append(('real-readiness', 'real connection, the module\'s own readiness test: peer sent %r and ended with %s: %s' % (data, ending, problem),
                                              {'component': 'real-readiness', 'bytes': data, 'ending': ending, 'split': split}))
+    # a server port: clients that come and go while it is being polled - each one's messages are handed out, whoever left just before
+    for scenario in range(6):
+        n += 1
+        server = sockets.PortServer('127.0.0.1', 0, backlog=8)
+        addr = server._socket.getsockname()
+        socks, got, problem = [], [], None
+
+        def connect():
+            c = socket.socket()
+            c.connect(addr)
+            c.setsockopt(socket.IPPROTO_TCP, socket.TCP_NODELAY, 1)
+            socks.append(c)
+            return c
+
+        def drain(want_count, seconds=3.0):
+            deadline = time.time() + seconds
+            while time.time() < deadline and len(got) < want_count:
+                m = server.poll()
+                if m is None:
+                    time.sleep(0.002)
+                else:
+                    got.append(m.bytes())
+        try:
+            sent = []
+            a = connect()
+            a.sendall(bytes([0x90, 1, 1])); sent.append([0x90, 1, 1])
+            if scenario % 2:
+                b2 = connect()
+                b2.sendall(bytes([0x91, 2, 2])); sent.append([0x91, 2, 2])
+            drain(len(sent))
+            a.close()                                    # A leaves ...
+            for _ in range(scenario % 3):                # ... the server notices (or not yet) ...
+                server.poll(); time.sleep(0.005)
+            c = connect()                                # ... and C arrives
+            c.sendall(bytes([0x92, 3, 3, 0x92, 4, 4])); sent += [[0x92, 3, 3], [0x92, 4, 4]]
+            drain(len(sent))
+            if scenario >= 3:
+                c.close()
+                for _ in range(scenario % 3):
+                    server.poll(); time.sleep(0.005)
+                d = connect()
+                d.sendall(bytes([0x93, 5, 5])); sent.append([0x93, 5, 5])
+                drain(len(sent))
+            if sorted(got) != sorted(sent):
+                problem = 'the clients sent %r, the server handed out %r' % (sent, got)
+        except Exception as e:  # noqa: BLE001
+            problem = 'raised %r' % (e,)
+        finally:
+            try:
+                server.close()
+            except Exception:  # noqa: BLE001
+                pass
+            for c_ in socks:
+                try:
+                    c_.close()
+                except OSError:
+                    pass
+        if problem is not None:
+            out.failures.append(('server-late-client', 'a server port polled while clients come and go (scenario %d): %s' % (scenario, problem),
+                                 {'component': 'real-readiness', 'scenario': scenario}))
     out.evaluations += n
     out.components['unscheduled loop-back connections with the real readiness test (implementation against the statement)'] = {'cases': n}
 
